@@ -26,10 +26,12 @@ ByteAlphabet == {"0", "d", "x", "l", "U", "-", "_", ".", ":", "%", "[", "]", "#"
                  "QUOTE", "SQ", "BSL", "&", "RUN63", "RUN64", "RUN254"}
 
 (* ARPA-shaped names: label kinds, then a suffix shape *)
-ArpaLabels == {"o7", "o0", "o07", "o00", "o256", "o100", "o255", "na", "nA", "n0", "ab", "g", "dash-", "L63", "L64", "uK"}
+ArpaLabels == {"o7", "o0", "o07", "o00", "o256", "o100", "o255", "na", "nA", "n0", "ab", "g", "dash-", "L63", "L64", "uK", "UL55"}
 ArpaSuffixes == {"in-addr.arpa", "ip6.arpa", "xip6.arpa", "xin-addr.arpa", "arpa", "IN-ADDR.ARPA", "Ip6.ArPa",
                  "ip6.arpa.", "in-addr.arpa.", "ip6.arpa..", "iN-addr.arpa(dotless-i)", "in-addr.arpa(dotted-I)",
                  "ip6.arpa(kelvin)", "in-addr", ""}
+(* "UL55" / "UL85": a label of 55 / 85 repeated non-ASCII runes: > 63 bytes raw, a short Punycode label *)
+(* after idna.ToASCII, so a name can be valid while its raw form is longer than 253 bytes.             *)
 (* long nibble / octet runs in front of a suffix *)
 ArpaRuns == {"nib28", "nib30", "nib31", "nib32", "nib33", "nib34", "nib40", "oct3", "oct4", "oct5", "oct6",
              "nibnodot32", "nibbad32", "nib32upper"}
@@ -40,10 +42,10 @@ DurationToks == {"1", "0", "9", "h", "m", "s", "ms", "us", "micro-s", "ns", ".",
                  "9223372036854775807", "9223372036854775808", "2562047", "SP", "u2", "BAD"}
 URLToks == {"http", "file", "grpc", "://", ":", "/", "//", "?", "#", "@", "%", "%2F", "%zz", "%2", "[", "]", "::1",
             "h", "user", "pw", "a b", "DEL", "NL", "&", "<", "QUOTE", "BSL", "u2", "BAD", "80", "65536", ".."}
-HostsToks == {"1.2.3.4", "::1", "fe80::1%eth0", "1.2.3.256", "name", "na.me", "Name", "u2name", "bad_name!", "RUN64",
+HostsToks == {"UL55", "1.2.3.4", "::1", "fe80::1%eth0", "1.2.3.256", "name", "na.me", "Name", "u2name", "bad_name!", "RUN64",
               "RUN254", "SP", "TAB", "#", "cmt", "CR", "NL", "NUL", "BAD", "-", "."}
 NameToks == {"l", "d", "0", "-", "_", ".", "U", "u2", "FW.", "xn--", "RUN15", "RUN16", "RUN62", "RUN63", "RUN64",
-             "RUN189", "BAD", "SP", "*"}
+             "RUN189", "BAD", "SP", "*", "UL55", "UL85"}
 
 Alphabet ==
     CASE Family = "bytes"    -> ByteAlphabet
